@@ -62,7 +62,11 @@ Definition complies (f : lockfact) : bool :=
     end
   | AOps => match lf_locks f with [] => true | _ => false end          (* the implementation is never called with a library mutex held *)
   | ASend | ARecv | AClose => match lf_locks f with [] => true | _ => false end   (* no channel operation under a mutex *)
-  | AGo | ACall => true
+  | AGo => true
+  (* answering a request can take long (the implementation's respond hook runs, the reply waits for room in the
+     connection's queue): never under a library mutex *)
+  | ACall => negb (String.eqb (lf_struct f) "SrvReq" && prefix "Respond" (lf_field f)
+                   && match lf_locks f with [] => false | _ => true end)
   | AHeldRet => false      (* no function returns with a mutex still held (deferred unlocks excepted) *)
   end.
 
